@@ -287,6 +287,8 @@ def observe(arr, paths, cmd, opts=(), fail=None, extra_env=None, timeout=120):
     sc = set()
     for cl, what, b, a in o.diff:
         if cl[0] == 'parity' and what != 'bytes':
+            if what == 'created-file':
+                sc.add(('RszParity', cl[1]))      # a parity file that did not exist appears (parity_create, O_CREAT)
             continue
         if cl[0] == 'parity':
             n = min(len(b), len(a))
@@ -455,7 +457,7 @@ def scan_summary(arr, st, conf_disks, uuid_disks=(), skip=None):
         dirs = set(d.decode('latin1') for d in dd['dirs'])
         trust = name in uuid_disks
         byino = {f['inode']: sub for sub, f in files.items()} if trust else {}
-        c = {'equal': 0, 'move': 0, 'restore': 0, 'remove': 0, 'change': 0, 'insert': 0, 'copy': 0, 'zero': False, 'kept': [],
+        c = {'equal': 0, 'equal_links': 0, 'move': 0, 'restore': 0, 'remove': 0, 'change': 0, 'insert': 0, 'copy': 0, 'zero': False, 'kept': [],
              'need_write': False, 'zero_files': [], 'new_nonempty': False}
         seen_files, seen_links, seen_dirs = set(), set(), set()
         present_inodes = {}      # inode -> recorded sub of a file recognised in this scan
@@ -468,7 +470,7 @@ def scan_summary(arr, st, conf_disks, uuid_disks=(), skip=None):
             seen_links.add(rel)
             if l is not None:
                 if l['to'].decode('latin1') == to and bool(l['hard']) == hard:
-                    c['equal'] += 1
+                    c['equal'] += 1; c['equal_links'] += 1
                 else:
                     c['change'] += 1; c['need_write'] = True
             else:
@@ -664,7 +666,7 @@ def presummary(arr, paths, cmd, opts):
     skip = (lambda p, n: p in cpaths or any(_fn.fnmatchcase(n, pt) for pt in pats)) if (pats or cpaths) else None
     scan = scan_summary(arr, loaded, conf_disks, uuid_disks, skip)
     d['_scan'] = scan
-    d['disks'] = [(c['equal'], c['move'], c['restore'], c['remove'], c['change'], c['insert'], c['copy'], c['zero']) for c in scan]
+    d['disks'] = [(c['equal'], c['move'], c['restore'], c['remove'], c['change'], c['equal_links'], c['insert'], c['copy'], c['zero']) for c in scan]
     d['scan_need_write'] = any(c['need_write'] for c in scan)
     # -R converts every BLK block to REP while loading (state.c:2037): nothing counts as used any more
     d['used'] = 0 if ('-R' in opts or '--force-realloc' in opts) else used_blocks(scan)
@@ -686,6 +688,7 @@ def presummary(arr, paths, cmd, opts):
             cur.append((rec, os.path.getsize(f) if os.path.exists(f) else 0))
         splits.append(cur)
     d['parity_splits'] = splits
+    d['parity_absent'] = [not all(os.path.exists(f) for f in fs) for fs in arr.parity_files]
 
     def valid(cur):
         tot = 0
@@ -785,11 +788,11 @@ def pre_tokens(d, arr):
     t = ['P', b(d['conf_ok']), b(d['lock_free']), str(d['ncontent']), str(d['level']), b(d['content_found']), b(d['content_ok']),
          b(d['read_need_write']), b(d['bs_mismatch']), b(d['hs_mismatch']), b(d['unknown_disk']), str(d['uuid_changes'])]
     t += ['D', str(len(d['disks']))]
-    for e, m, r, rm, ch, ins, cp, z in d['disks']:
-        t += [str(e), str(m), str(r), str(rm), str(ch), str(ins), str(cp), b(z)]
+    for e, m, r, rm, ch, el, ins, cp, z in d['disks']:
+        t += [str(e), str(m), str(r), str(rm), str(ch), str(el), str(ins), str(cp), b(z)]
     t += [b(d['scan_need_write']), str(d['blockmax']), str(d['used'])]
     t += [''.join(map(b, d['parity_access'])) or '-', ''.join(map(b, d['parity_open'])) or '-', ';'.join(','.join('%s:%d' % ('-' if r is None else r, k) for r, k in cur) for cur in d['parity_splits']) or '-', str(d['_bs']),
-          ''.join(map(b, d['parity_resize'])) or '-', ''.join(map(b, d['parity_modified'])) or '-']
+          ''.join(map(b, d['parity_absent'])) or '-', ''.join(map(b, d['parity_resize'])) or '-', ''.join(map(b, d['parity_modified'])) or '-']
     t += [b(d.get('prehash_fail', False)), b(d['sync_work']), b(d.get('sync_errors', False)), b(d['array_empty']),
           str(d.get('scrub_stripes', 0)), b(d.get('scrub_errors', False)), b(d.get('check_errors', False)), b(d['diff'])]
     items = d.get('fix_items', [])
